@@ -42,6 +42,10 @@ func drawH2Opts(ch *sim.Choices, who string) peers.H2Opts {
 	if ch.Bool("params", who+":enctable") {
 		o.EncTable = pickFrom(ch, "params", who+":enctables", [][]uint32{{0, 4096}, {4096, 100, 4096, 0}, {30, 60, 4096}})
 	}
+	if ch.Chance("params", who+":newwin", 1, 3) {
+		// the initial window changes while streams are open: every open stream's window moves with it
+		o.NewWin = pickFrom(ch, "params", who+":newwins", [][]uint32{{0, 65535}, {1 << 20}, {100, 16384}, {1, 0, 1 << 16}, {7}, {65535, 0}})
+	}
 	if ch.Bool("params", who+":newtable") {
 		o.NewTable = pickFrom(ch, "params", who+":newtables", [][]uint32{{0}, {100, 4096}, {0, 4096, 50}, {65536, 10}, {0, 4096, 2048}, {0, 4096, 1000, 4096}})
 		o.TablePair = ch.Bool("params", who+":tablepair")
@@ -215,6 +219,15 @@ func (w *Proxy) setupH2Client(ci int, reqIdxP *int) {
 		if tt > w.lastSend {
 			w.lastSend = tt
 		}
+	}
+	// SETTINGS_INITIAL_WINDOW_SIZE changes while requests are in flight (right after the k-th request was sent)
+	for i, v := range cl.O.NewWin {
+		v := v
+		at := t/2 + time.Duration(i)*5*time.Millisecond
+		if i < len(sendAt) {
+			at = sendAt[i] + pickFrom(ch, "work", "newwinat", []time.Duration{0, 500 * time.Microsecond, 3 * time.Millisecond, 25 * time.Millisecond})
+		}
+		s.At(at, "h2win:"+cl.Name, func() { cl.ChangeInitWindow(v) })
 	}
 	// SETTINGS_HEADER_TABLE_SIZE changes in the middle of the connection's life
 	// ... right after the k-th request has been sent (so that header blocks lie between the changes)
